@@ -2,6 +2,7 @@ package main
 
 import (
 	"fmt"
+	"go/token"
 	"go/types"
 	"os"
 	"path/filepath"
@@ -78,6 +79,11 @@ func LoadDriver(repo, specDir string) (*Driver, error) {
 	for fn := range ssautil.AllFunctions(prog) {
 		if fn.Pkg == d.pkg {
 			d.fns[fn.RelString(d.pkg.Pkg)] = fn
+			// user init functions are numbered by file order: also addressable as init@<file>
+			if strings.HasPrefix(fn.Name(), "init#") && fn.Pos().IsValid() {
+				f := prog.Fset.Position(fn.Pos()).Filename
+				d.fns["init@"+filepath.Base(f)] = fn
+			}
 		}
 	}
 	// contracts: every *.go file in repo guarded by the verif tag that contains //@ lines, plus spec/*.contracts
@@ -440,4 +446,97 @@ func (d *Driver) captureObligations(ex *Exec, fn *ssa.Function, key string) {
 			}
 		}
 	}
+}
+
+// DisciplineHeaderName generates the dependency-discipline obligations for Header.name (C17):
+// a value loaded from that field may only flow into isSameHeader, into a fmt argument (printing the
+// name as received) or into another Header.name; any other use (==, switch, map key, strings.*) would
+// make behaviour depend on the spelling of a header name.
+func (d *Driver) DisciplineHeaderName() *FuncVC {
+	ex := d.newExec(nil, "discipline/header-name", false)
+	fvc := &FuncVC{Key: "discipline/header-name", VC: ex.vc}
+	keys := []string{}
+	for k := range d.fns {
+		if !strings.Contains(k, "@") {
+			keys = append(keys, k)
+		}
+	}
+	sort.Strings(keys)
+	for _, k := range keys {
+		fn := d.fns[k]
+		if strings.HasSuffix(prog_file(d, fn), "_test.go") {
+			continue
+		}
+		for _, b := range fn.Blocks {
+			for _, ins := range b.Instrs {
+				ld, ok := ins.(*ssa.UnOp)
+				if !ok || ld.Op != token.MUL {
+					continue
+				}
+				fa, ok := ld.X.(*ssa.FieldAddr)
+				if !ok {
+					continue
+				}
+				pt, ok := fa.X.Type().Underlying().(*types.Pointer)
+				if !ok {
+					continue
+				}
+				si, ok := d.w.structOf(pt.Elem())
+				if !ok || si.Name != "Header" || si.Fields[fa.Field].Name != "name" {
+					continue
+				}
+				for _, ref := range *ld.Referrers() {
+					okUse := false
+					what := ref.String()
+					switch r := ref.(type) {
+					case *ssa.DebugRef:
+						continue
+					case *ssa.Call:
+						if callee, ok := r.Call.Value.(*ssa.Function); ok && callee.Pkg == d.pkg && callee.Name() == "isSameHeader" {
+							okUse = true
+							what = "argument of isSameHeader"
+						}
+					case *ssa.MakeInterface:
+						// boxed for a fmt call (printing the name unchanged)
+						okUse = true
+						what = "fmt argument"
+						for _, rr := range *r.Referrers() {
+							if _, isStore := rr.(*ssa.Store); !isStore {
+								if _, isDbg := rr.(*ssa.DebugRef); !isDbg {
+									okUse = false
+								}
+							}
+						}
+					case *ssa.Store:
+						if fa2, ok := r.Addr.(*ssa.FieldAddr); ok {
+							if pt2, ok := fa2.X.Type().Underlying().(*types.Pointer); ok {
+								if si2, ok := d.w.structOf(pt2.Elem()); ok && si2.Name == "Header" && si2.Fields[fa2.Field].Name == "name" {
+									okUse = true
+									what = "copied into another Header.name"
+								}
+							}
+						}
+					}
+					goal := "true"
+					if !okUse {
+						goal = "false"
+					}
+					if len(what) > 70 {
+						what = what[:70]
+					}
+					name := ex.oblName(k + "/name-via-canon@" + what)
+					o := ex.vc.oblige("name-via-canon", name, "true", goal, "Header.name is used only through isSameHeader / printed unchanged: "+ref.String(), ex.posOf(ref.Pos()), nil)
+					o.Fn = k
+				}
+			}
+		}
+	}
+	return fvc
+}
+
+func prog_file(d *Driver, fn *ssa.Function) string {
+	if !fn.Pos().IsValid() {
+		return ""
+	}
+	return d.prog.Fset.Position(fn.Pos()).Filename
 }
